@@ -489,13 +489,16 @@ impl<F: MatchFunc> Aligner<F> {
                 self.S[curr][m] = MIN_SCORE;
             }
             // Track the score if we do clip (y) from origin
-            if self.scoring.yclip_prefix > self.scoring.yclip_suffix {
-                self.Sn[0] = self.scoring.yclip_prefix;
-                self.traceback.get_mut(0, n).set_s_bits(TB_YCLIP_PREFIX);
-            } else {
-                self.Sn[0] = self.scoring.yclip_suffix;
-                self.Ly[0] = n;
-                self.traceback.get_mut(0, n).set_s_bits(TB_YCLIP_SUFFIX);
+            // (with an empty y there is nothing to clip: cell (0, n) is the origin itself)
+            if n > 0 {
+                if self.scoring.yclip_prefix > self.scoring.yclip_suffix {
+                    self.Sn[0] = self.scoring.yclip_prefix;
+                    self.traceback.get_mut(0, n).set_s_bits(TB_YCLIP_PREFIX);
+                } else {
+                    self.Sn[0] = self.scoring.yclip_suffix;
+                    self.Ly[0] = n;
+                    self.traceback.get_mut(0, n).set_s_bits(TB_YCLIP_SUFFIX);
+                }
             }
         }
 
